@@ -25,9 +25,10 @@ import tempfile
 
 from twisted.internet import interfaces
 from twisted.internet.testing import StringTransport
-from zope.interface import implementer
+from zope.interface import directlyProvides, implementer, providedBy
 
-STREAMS = ['lines-exhaustive', 'lines-random', 'lines-malformed', 'cookie-env', 'handshake-spec-server']
+STREAMS = ['lines-exhaustive', 'lines-random', 'lines-malformed', 'cookie-env', 'handshake-spec-server',
+           'handshake-sequence']
 THEOREMS = ['begin_only_after_ok', 'begin_only_after_ok_of_current_mechanism', 'authenticated_iff_begin',
             'mechanisms_once_in_order', 'moves_on_after_rejected_or_error', 'no_stall', 'no_stall_run',
             'no_complete_line_buffered', 'framing_independent_of_reads', 'line_delivered_in_pieces',
@@ -294,11 +295,18 @@ def error_kind(text):
 class Session:
     """One client connection of the real code on a fake transport."""
 
-    def __init__(self, world, unix, env, pref=None):
+    def __init__(self, world, unix, env, pref=None, ukind='class'):
         self.world = world
         world.set_env(env)
         self.log = []
-        self.t = (FakeUnixTransport if unix else FakeTransport)(self.log)
+        if unix and ukind == 'instance':
+            # a UNIX transport that provides the interface on the INSTANCE (zope directlyProvides - what
+            # twisted.protocols.policies.ProtocolWrapper does for a wrapped UNIX transport), not on its class
+            self.t = FakeTransport(self.log)
+            self.t.sendFileDescriptor = lambda fd, log=self.log: log.append(('fd', fd))
+            directlyProvides(self.t, interfaces.IUNIXTransport, providedBy(self.t))
+        else:
+            self.t = (FakeUnixTransport if unix else FakeTransport)(self.log)
         self.p = world.conn_for(pref)()
         self.p._vlog = self.log
         self.p._vraw = []
@@ -391,7 +399,7 @@ def case_pref(case):
 
 
 def run_impl(world, case, envs):
-    s = Session(world, case['unix'], envs[case['env']], case_pref(case))
+    s = Session(world, case['unix'], envs[case['env']], case_pref(case), ukind=case.get('ukind', 'class'))
     for c in case['chunks']:
         s.feed(unhx(c))
     return s
@@ -726,6 +734,11 @@ def chunkings(rng, data, n):
 
 def mk_case(unix, env, chunks, pref=None):
     c = {'unix': bool(unix), 'env': env, 'chunks': [hx(c) for c in chunks]}
+    if unix:
+        # half of the UNIX cases (chosen by content, so that a replay uses the same kind) use a transport that
+        # provides IUNIXTransport per instance instead of per class
+        c['ukind'] = 'instance' if sum(len(x) for x in chunks) % 2 else 'class'
+
     if pref is not None:
         c['pref'] = [hx(m) for m in pref]
     return c
@@ -867,7 +880,8 @@ def spec_handshake(world, envs, cfg, deliver=None, twist=None):
     deliver: how one server answer (with its CRLF) is cut into reads; None = one read per round."""
     srv = RefServer(set(cfg['accepts']), cfg['fd_agree'], twist=twist,
                     **dict(SRV, ctxname=cfg.get('ctx', 'ctxa').encode()))
-    s = Session(world, cfg['unix'], envs[cfg['env']])
+    ukind = cfg.get('ukind') or ('instance' if (len(cfg['accepts']) + int(bool(cfg['fd_agree']))) % 2 else 'class')
+    s = Session(world, cfg['unix'], envs[cfg['env']], ukind=ukind)
     transcript = []
     done = 0   # client lines already delivered
     for _ in range(32):
@@ -891,6 +905,74 @@ def spec_handshake(world, envs, cfg, deliver=None, twist=None):
                 for piece in deliver(r + CRLF):
                     s.feed(piece)
     return transcript, s, srv
+
+
+def run_handshake_sequences(ctx, world, tmp, rng):
+    """Several client connections one after the other IN ONE PROCESS against a spec-conforming server that accepts
+    DBUS_COOKIE_SHA1 only and keeps its keyring the way conforming servers may: every connection gets a new
+    secret; the cookie id is either never re-used or re-issued (txdbus's own bus restarts at id 1 once its keyring
+    file is empty).  Every handshake must complete (property: the handshake against a conforming server
+    completes) - whatever earlier connections of the process looked up.  Implementation only."""
+    home = os.path.join(tmp, 'reissue')
+    os.mkdir(home)
+    kd = os.path.join(home, '.dbus-keyrings')
+    os.mkdir(kd)
+    os.chmod(kd, 0o700)
+    env = KeyEnv('reissue', home, 'root', {}, RND)
+    plans = []
+    for policy in ('reuse', 'fresh', 'alternate'):
+        for unix in (False, True):
+            plans.append((policy, unix, 4))
+    for _ in range(ctx.scale(quick=6, thorough=60)):
+        plans.append((rng.choice(['reuse', 'fresh', 'alternate', 'random']), rng.random() < 0.5, rng.randint(2, 6)))
+    for pi, (policy, unix, n) in enumerate(plans):
+        ctxname = b'ctxr%d' % pi                       # a keyring file of its own per plan
+        path = os.path.join(kd, ctxname.decode())
+        outcomes = []
+        for k in range(n):
+            if policy == 'reuse':
+                cid = b'1'
+            elif policy == 'fresh':
+                cid = b'%d' % (k + 1)
+            elif policy == 'alternate':
+                cid = b'%d' % (1 + k % 2)
+            else:
+                cid = b'%d' % rng.randint(1, 3)
+            secret = binascii.hexlify(bytes([16 * pi % 256, k + 1]) * 6)
+            # the file holds this connection's cookie (the previous one was deleted by the server), sometimes
+            # together with an unrelated older entry
+            with open(path, 'wb') as f:
+                if k % 3 == 2:
+                    f.write(b'9 50 0badc0de\n')
+                f.write(b'%s %d %s\n' % (cid, 100 + k, secret))
+            srv = RefServer({b'DBUS_COOKIE_SHA1'}, False, SRV['guid_hex'], ctxname, cid, secret, b'ch%02d' % k)
+            sess = Session(world, unix, env, ukind='instance' if (k % 2) else 'class')
+            done = 0
+            for _round in range(32):
+                evs, _ = sess.events(raw=True)
+                sent = [unhx(e[2:]) for e in evs if e.startswith('S:')]
+                new = sent[done:]
+                done = len(sent)
+                if not new:
+                    break
+                replies = []
+                for l in new:
+                    replies += srv.line(l)
+                if replies:
+                    sess.feed(b''.join(r + CRLF for r in replies))
+            ok = bool(sess.p._authenticated) and srv.state == 'Authenticated'
+            outcomes.append((cid.decode(), ok))
+            ctx.impl_trace()
+            if not ok:
+                evs, _ = sess.events(raw=True)
+                ctx.violation('handshake-incomplete-on-later-connection',
+                              'connection %d of %d in one process (cookie id %s, policy %s, new secret per connection) '
+                              'does not complete against a cookie-only spec server' % (k + 1, n, cid.decode(), policy),
+                              inp={'kind': 'sequence', 'policy': policy, 'unix': unix, 'n': n, 'plan': pi},
+                              observed=' '.join(evs)[:600], expected='OK ... BEGIN, authenticated')
+                break
+        ctx.case('handshake-sequence', sample={'policy': policy, 'unix': unix, 'n': n})
+        ctx.stat('sequence:%s:%s' % (policy, 'all-ok' if all(o for _, o in outcomes) else 'failed'))
 
 
 def hs_driver_line(cfg, envs):
@@ -1228,10 +1310,10 @@ def _run(ctx, world, envs, tmp):
     for name, data in ctx.corpus():
         inp = data.get('input', data)
         if inp.get('kind', 'run') == 'run' and inp.get('env') in envs:
-            corpus_cases.append({k: inp[k] for k in ('unix', 'env', 'chunks', 'pref') if k in inp})
+            corpus_cases.append({k: inp[k] for k in ('unix', 'env', 'chunks', 'pref', 'ukind') if k in inp})
         elif inp.get('kind') == 'hs' and inp.get('env') in envs:
             cfg = dict(inp, accepts=[a.encode() for a in inp['accepts']])
-            shown = {k: inp[k] for k in ('accepts', 'unix', 'fd_agree', 'env', 'ctx') if k in inp}
+            shown = {k: inp[k] for k in ('accepts', 'unix', 'fd_agree', 'env', 'ctx', 'ukind') if k in inp}
             m = ctx.model([hs_driver_line(cfg, envs)])
             base = judge_handshake(ctx, world, envs, cfg, shown, m[0] if m else None)
             if inp.get('delivery'):
@@ -1339,6 +1421,9 @@ def _run(ctx, world, envs, tmp):
     # 7. partners that answer ERROR instead of REJECTED, or take an OK back (implementation only)
     run_partner_handshakes(ctx, world, envs)
 
+    # several connections in one process against a keyring whose cookies change between connections
+    run_handshake_sequences(ctx, world, tmp, rng)
+
 
 def replay(ctx, data):
     tmp = tempfile.mkdtemp(prefix='verif-c07-')
@@ -1349,12 +1434,12 @@ def replay(ctx, data):
         inp = data.get('input', data)
         kind = inp.get('kind', 'run')
         if kind == 'run':
-            case = {k: inp[k] for k in ('unix', 'env', 'chunks', 'pref') if k in inp}
+            case = {k: inp[k] for k in ('unix', 'env', 'chunks', 'pref', 'ukind') if k in inp}
             m = ctx.model([driver_line(case, envs)])
             judge(ctx, world, 'replay', case, envs, m[0] if m else None)
         elif kind == 'hs':
             cfg = dict(inp, accepts=[a.encode() for a in inp['accepts']])
-            shown = {k: inp[k] for k in ('accepts', 'unix', 'fd_agree', 'env', 'ctx') if k in inp}
+            shown = {k: inp[k] for k in ('accepts', 'unix', 'fd_agree', 'env', 'ctx', 'ukind') if k in inp}
             m = ctx.model([hs_driver_line(cfg, envs)])
             base = judge_handshake(ctx, world, envs, cfg, shown, m[0] if m else None)
             if inp.get('delivery'):
